@@ -11,6 +11,14 @@ DURS = ['w', 'h', 'q', 'e', 's', 't', 'hd', 'qd', 'ed', 'h3', 'q3', 'e3', 'q5', 
 INSTRUMENTS = ['piano', 'violin', 'cello', 'flute', 'drums_0', 'trumpet', 'acoustic_guitar', 'harp']
 
 
+import os
+# A small share of the generated inputs is "stretched" beyond the usual small sizes (more chords, more parts incl. the same
+# instrument several times, longer melodies, wider values / octaves), because a change that only shows on large inputs
+# would otherwise never be reached by streams of small cases.
+STRETCH = float(os.environ.get('VERIF_STRETCH', '0.06'))
+EXTRA_PARTS = ('piano__1', 'piano__2', 'flute__0', 'violin__1')
+
+
 def lib():
     import musiclang.library as L
     return L
@@ -95,6 +103,8 @@ def rand_melody(rng, n_notes=(1, 5), kinds=None, p_rest=0.15, p_cont=0.15, first
     from musiclang import Silence, Continuation, Melody
     kinds = kinds or NONREL
     notes = []
+    if rng.random() < STRETCH:
+        n_notes = (n_notes[0], n_notes[1] + 6)      # sizes only: value / octave ranges are the caller's (text replay needs them)
     for i in range(rng.randint(*n_notes)):
         d = rand_duration(rng) if durs is None else rng.choice(durs)
         x = rng.random()
@@ -113,6 +123,10 @@ def rand_score(rng, n_chords=(1, 4), parts=('piano__0', 'violin__0', 'cello__0')
     """random score; with equal_parts every part lasts as long as its chord"""
     from musiclang import Score, Silence
     chords = []
+    if rng.random() < STRETCH:
+        n_chords = (n_chords[0], n_chords[1] + 4)
+        if len(parts) > 1:                            # callers that ask for a single part rely on it
+            parts = tuple(parts) + tuple(p for p in EXTRA_PARTS if p not in parts)[:rng.randint(1, 3)]
     for _ in range(rng.randint(*n_chords)):
         c, _t = rand_chord(rng, ext=(rng.choice(PLAIN_INVERTIBLE) if plain else None), octaves=(-1, 1), max_mods=2)
         sc = {}
